@@ -37,8 +37,9 @@ def symbols(kinds):
     return [('L', c, t) for c, t in LEASES] + [('R', k) for k in kinds] + [('A', 'half'), ('A', 'ttl'), ('A', 'ttl+1')]
 
 
-def run_seq(kinds, fs, qsize, seq, flavour='tcp'):
-    s = Solo('client', flavour, honor_lease=True, request_queue_size=qsize, fragment_size_bytes=fs)
+def run_seq(kinds, fs, qsize, seq, flavour='tcp', role='client'):
+    # role 'server': the lease-honouring requester is the server side of the connection (it gets its leases from the client)
+    s = Solo(role, flavour, honor_lease=True, request_queue_size=qsize, fragment_size_bytes=fs)
     try:
         w = s.w
         loop = w.loop
@@ -175,14 +176,14 @@ def nontrivial(calls, s):
     return any(c[2] is None and sent_at.get(c[0], 1e18) > c[3] + 1e-12 for c in calls) or any(c[2] for c in calls)
 
 
-def explore(kinds, fs, qsize, first, depth, part, flavour):
+def explore(kinds, fs, qsize, first, depth, part, flavour, role='client'):
     syms = symbols(kinds)
 
     def rec(seq):
         if any(x[0] == 'R' for x in seq):
             try:
                 arm_watchdog(3)  # a sequence takes milliseconds; a library call that no longer returns must not eat the budget
-                s, calls = run_seq(kinds, fs, qsize, seq, flavour)
+                s, calls = run_seq(kinds, fs, qsize, seq, flavour, role)
                 try:
                     v = judge(s, calls, qsize, kinds, fs)
                     part.evaluations += 1
@@ -203,7 +204,7 @@ def explore(kinds, fs, qsize, first, depth, part, flavour):
                 disarm_watchdog()
             for rule, sig, detail in v:
                 part.violate(rule, sig, detail + ' seq=%s' % (seq,), {'kind': 'requester', 'kinds': list(kinds), 'fs': fs, 'q': qsize,
-                                                                     'flavour': flavour, 'seq': [list(x) for x in seq]})
+                                                                     'flavour': flavour, 'seq': [list(x) for x in seq], 'role': role})
         if len(seq) >= depth:
             return
         for sym in syms:
@@ -268,6 +269,11 @@ def make_units(tier):
                         continue
                     units.append({'kind': 'requester', 'kinds': list(kinds), 'fs': fs, 'q': q, 'first': list(first), 'depth': DEPTH[tier],
                                   'flavour': 'tcp' if (fs is None) == (q == 0) else 'msg'})
+    # the server side as lease-honouring requester (one request-type pair, one level shallower)
+    for first in symbols(KIND_PAIRS[0]):
+        if first[0] != 'A':
+            units.append({'kind': 'requester', 'kinds': list(KIND_PAIRS[0]), 'fs': None, 'q': 2, 'first': list(first), 'depth': DEPTH[tier] - 1,
+                          'flavour': 'tcp', 'role': 'server'})
     units.append({'kind': 'responder'})
     return units
 
@@ -281,7 +287,7 @@ def run_unit(unit, part):
                         responder_case(flavour, count, ttl, multi, part)
         part.sample({'kind': 'responder', 'counts': [0, 1, 0x7FFFFFFF], 'ttls_ms': [1000, 1500, 250, 1, 2250]})
         return
-    explore(tuple(unit['kinds']), unit['fs'], unit['q'], tuple(unit['first']), unit['depth'], part, unit['flavour'])
+    explore(tuple(unit['kinds']), unit['fs'], unit['q'], tuple(unit['first']), unit['depth'], part, unit['flavour'], unit.get('role', 'client'))
     part.sample({'kind': 'requester', 'request_types': unit['kinds'], 'fs': unit['fs'], 'queue': unit['q'], 'first': unit['first'], 'depth': unit['depth']}, limit=1)
 
 
@@ -295,7 +301,7 @@ def replay(rec):
             print(v.detail)
         return bool(p.violations)
     seq = [tuple(x) for x in w['seq']]
-    s, calls = run_seq(tuple(w['kinds']), w['fs'], w['q'], seq, w.get('flavour', 'tcp'))
+    s, calls = run_seq(tuple(w['kinds']), w['fs'], w['q'], seq, w.get('flavour', 'tcp'), w.get('role', 'client'))
     try:
         v = judge(s, calls, w['q'], tuple(w['kinds']), w['fs'])
         for ev in s.w.log:
